@@ -15,6 +15,7 @@ type Clause struct {
 	E    Expr
 	File string
 	Line int
+	Pkg  string // package in whose scope type names of this clause resolve (set for named frames)
 }
 
 type LoopSpec struct {
@@ -96,15 +97,16 @@ type ContractSet struct {
 	Specs   map[string][]*SpecDef
 	Lemmas  []*LemmaDef
 	Atomics []*AtomicInv
+	Frames  map[string][]Clause // named frame sets: //@ frame name := L, L, ...
 	assumedFile bool
 	assumedMode bool
 }
 
 func newContractSet() *ContractSet {
-	return &ContractSet{Funcs: map[string]*FuncContract{}, Specs: map[string][]*SpecDef{}}
+	return &ContractSet{Funcs: map[string]*FuncContract{}, Specs: map[string][]*SpecDef{}, Frames: map[string][]Clause{}}
 }
 
-var blockKw = map[string]bool{"func": true, "spec": true, "pred": true, "lemma": true, "axiom": true, "atomic": true, "recspec": true, "uninterp": true}
+var blockKw = map[string]bool{"frame": true, "func": true, "spec": true, "pred": true, "lemma": true, "axiom": true, "atomic": true, "recspec": true, "uninterp": true}
 var clauseKw = map[string]bool{"requires": true, "ensures": true, "modifies": true, "loop": true, "assert": true,
 	"assume": true, "arith": true, "nopanic": true, "trusted": true, "abstract": true, "note": true, "nosafety": true, "params": true, "bounded": true, "opaque": true, "timeout": true, "uses": true}
 
@@ -283,6 +285,10 @@ func (cs *ContractSet) parseBlock(b []rawLine, file, pkg string) error {
 						fc.ModAll = true
 						continue
 					}
+					if fr, ok := cs.Frames[part]; ok {
+						fc.Modifies = append(fc.Modifies, fr...)
+						continue
+					}
 					c, err := mkClause(part, file, l.line)
 					if err != nil {
 						return err
@@ -377,6 +383,31 @@ func (cs *ContractSet) parseBlock(b []rawLine, file, pkg string) error {
 			fc.Trusted = true
 		}
 		cs.Funcs[fc.Name] = fc
+	case "frame":
+		text := rest
+		for _, l := range b[1:] {
+			text += " " + l.text
+		}
+		i := strings.Index(text, ":=")
+		if i < 0 {
+			return fmt.Errorf("%s:%d: frame name := L, L, ...", file, head.line)
+		}
+		name := strings.TrimSpace(text[:i])
+		var cls []Clause
+		for _, part := range splitTop(text[i+2:]) {
+			part = strings.TrimSpace(part)
+			if fr, ok := cs.Frames[part]; ok {
+				cls = append(cls, fr...)
+				continue
+			}
+			c, err := mkClause(part, file, head.line)
+			if err != nil {
+				return err
+			}
+			c.Pkg = pkg
+			cls = append(cls, c)
+		}
+		cs.Frames[name] = cls
 	case "spec", "pred", "recspec":
 		text := rest
 		for _, l := range b[1:] {
